@@ -232,5 +232,8 @@ def check(run):
     ncp = engines.copy_sources_advance(run, [f for f in fx.repo_functions() if q.top_function(fx, f).cls == T])
     if ncp < 1:
         run.broke('tcp::socket: no copy out of the incoming queue found in a loop (read idiom changed)')
+    run.clause('the byte stream reaches the PEER: data segments, retransmissions and ACKs are sent on the hops of their own direction (shared with C09)')
+    import p09 as _p09
+    _p09.channel_orientation_rules(run)
     run.floor('R7', 21)
     run.floor('R2', 5)
